@@ -126,7 +126,7 @@ var c07Authors = []string{vk.FakePub(700), vk.FakePub(701), vk.FakePub(702)}
 func c07Event(r *rand.Rand, n *int) *mocrelay.Event {
 	*n++
 	e := &mocrelay.Event{Kind: vk.Pick(r, []int64{1, 7}), Pubkey: vk.Pick(r, c07Authors), CreatedAt: int64(1000 + r.IntN(100)),
-		Content: fmt.Sprintf("c07-%d-%d", *n, r.Uint32()), Tags: []mocrelay.Tag{{"t", vk.Pick(r, []string{"v1", "v2"})}}}
+		Content: fmt.Sprintf("c07-%d-%d", *n, r.Uint32()), Tags: []mocrelay.Tag{{"t", vk.Pick(r, []string{"v1", "v2", "v1", "v2", "v1,v2", ""})}}}
 	return vk.Seal(e)
 }
 
@@ -154,7 +154,8 @@ func c07Filters(r *rand.Rand) []*mocrelay.ReqFilter {
 		case 2:
 			f.Authors = []string{vk.Pick(r, c07Authors)}
 		case 3:
-			f.Tags = map[string][]string{"t": {vk.Pick(r, []string{"v1", "v2"})}}
+			// value lists that differ only in how they are cut: ["v1,v2"] vs ["v1","v2"], [""] vs []
+			f.Tags = map[string][]string{"t": vk.Pick(r, [][]string{{"v1"}, {"v2"}, {"v1"}, {"v2"}, {"v1,v2"}, {"v1", "v2"}, {""}, {}})}
 		case 4:
 			f.Kinds = []int64{1, 7}
 			f.Limit = vk.Ptr(int64(r.IntN(2))) // a limit does not restrict live delivery
